@@ -117,8 +117,13 @@ fn main() {
             sink.finish(if c05 { props::RULE_C05 } else { props::RULE_C06 }, serde_json::json!({}));
         }
         "C03" => {
-            let mut sink = cases::CaseSink::new("C03", "Model.End Corr.LinkCorr Corr.C03", &opts.out, 150);
+            let mut sink = cases::CaseSink::new("C03", "Model.Sched Corr.C19 Model.End Corr.LinkCorr Corr.C03", &opts.out, 150);
+            sink.wrap = Some(("KLink".into(), "LinkCorr".into()));
             props::link::generate_c03(&opts, &mut sink);
+            // forward edges are wired by the scheduler: execution graphs of random jobs
+            let sub = Opts { prop: opts.prop.clone(), thorough: opts.thorough, seed: opts.seed, out: opts.out.clone(), replay: None, scale: 2 };
+            sink.wrap = Some(("KGraph".into(), "C19".into()));
+            props::c19::generate(&sub, &mut sink);
             sink.finish(props::link::RULE_C03, serde_json::json!({}));
         }
         "C02" => {
@@ -201,6 +206,23 @@ fn main() {
                 if res != Some(vec![o]) { bad += 1; }
             }
             println!("mismatches: {bad}/20");
+        }
+        "PROBE_F12" => {
+            use pipe::*;
+            let src = Pipe::Src(true, (0..40).map(|v| (v % 5, v)).collect());
+            for (rounds, inner) in [(3i64, vec![Op1::Shuffle, Op1::AddState]), (4, vec![Op1::Shuffle, Op1::AddState]), (4, vec![Op1::Shuffle, Op1::AddState, Op1::Shuffle])] {
+                let p = Pipe::Replay(Box::new(src.clone()), rounds, 1_000_000_000_000, vec![Op1::NestedO(2, 1_000_000_000_000, inner.clone())]);
+                let good = match run(&p, &Deploy::Local(1), Mode::Fixed(1024), std::time::Duration::from_secs(60)) { Outcome::Done(v) => v, o => panic!("{:?}", o) };
+                for mode in [Mode::Single, Mode::Fixed(1), Mode::Fixed(3), Mode::Fixed(1024), Mode::Adaptive(1024, 50), Mode::Adaptive(4, 5)] {
+                    for cores in [vec![2u64, 2, 2], vec![1, 1, 1], vec![2, 2]] {
+                        let mut bad = 0;
+                        for _ in 0..10 {
+                            match run(&p, &Deploy::Remote(cores.clone()), mode, std::time::Duration::from_secs(60)) { Outcome::Done(v) if v == good => {}, _ => bad += 1 }
+                        }
+                        println!("rounds {rounds} inner {:?} mode {:?} cores {:?}: wrong {bad}/10", inner, mode, cores);
+                    }
+                }
+            }
         }
         "DEBUG20" => {
             use pipe::*;
